@@ -254,7 +254,7 @@ theorem binary_xconfig_spec (decn : List Nat) (nc np : Nat) (rem perm : List Nat
       · nlinarith
       · nlinarith
 
-/-- **D18.**  Contributions (4,4) on 2×2 slots: the remainder draw `rng.choice(options, 4, replace=False)`
+/-- **D20.**  Contributions (4,4) on 2×2 slots: the remainder draw `rng.choice(options, 4, replace=False)`
     may return four copies of individual 1; the configuration is then [[1,1],[1,1]] — individual 0 is
     never used although its proportional share is 2 (reproduced on the real code, RandomState(3)). -/
 theorem integer_share_counterexample :
@@ -278,8 +278,8 @@ example : (∀ d ∈ ([0, 1, 0, 1] : List Nat), d ≤ 1) ∧
     the configuration built from it meets the whole Spec: the arrangement steps change neither shape nor
     multiset and end exchange-optimal.
 
-    FULL STATEMENT (needs C17's `sus_floor_ceil` for the draws; false at offset within ulps of the
-    spacing, D7 — `real_pointer_count_counterexample`):
+    FULL STATEMENT (needs C17's theorem about the repaired sampler, fc545079, for the three hypotheses
+    on `sus`; the sampler itself is not modelled here):
       ∀ weights w with Σw > 0 and every generator state: `specContribution w nc np rows = true`. -/
 theorem real_xconfig_partial (w : List Rat) (sus : List Nat) (nc np : Nat)
     (orders rowperms : List (List Nat)) (rows : Rows)
@@ -300,10 +300,9 @@ theorem real_xconfig_partial (w : List Rat) (sus : List Nat) (nc np : Nat)
     rw [hp.count_eq]
     exact hshare i hi
 
-/-- a pointer array that is one short (D7: offset within ulps of the spacing) is the code's reshape
-    `ValueError` — no configuration is produced -/
-theorem real_pointer_count_counterexample :
-    sampleReal [2, 1] 3 1 [] [[0], [0], [0]] = .error "value" := by decide
+-- a SUS result of the wrong length (what the sampler returned before fix fc545079 when the offset was
+-- within ulps of the spacing, D7) is the code's reshape `ValueError`: no configuration is produced
+example : sampleReal [2, 1] 3 1 [] [[0], [0], [0]] = .error "value" := by decide
 
 example : sampleReal [2, 0, 2, 3] 2 2 [[0, 1, 2, 3, 4, 5]] [[0, 1], [1, 0]] = .ok [[2, 0], [3, 2]] ∧
     supportOk [1/2, 0, 1/4, 1/4] [2, 0, 2, 3] = true ∧ withinOne [1/2, 0, 1/4, 1/4] 4 [2, 0, 2, 3] = true := by
@@ -533,7 +532,7 @@ theorem select_mo_subset_config {α : Type} [LinearOrder α] [Mul α] (wt : α) 
   ⟨(mo_choice_argmax wt tvals decns ix d hch).1, mo_choice_spec wt tvals decns ix d hch,
     subset_xconfig_spec d nc np rem perm orders rowperms rows hnd vt va h⟩
 
-/-! ## 8. Integer mate selection and the usefulness-criterion bounds (D19) -/
+/-! ## 8. Integer mate selection and the usefulness-criterion bounds (D21) -/
 
 /-- **Integer / binary mate selection.**  Every cross is the map row of a candidate cross with a
     positive contribution; candidate `d` is used between `q·decn[d]` and `(q+1)·decn[d]` times. -/
@@ -574,28 +573,36 @@ theorem mate_real_xconfig_partial (sus : List Nat) (xmap : Rows) (nc : Nat) (per
   obtain ⟨e1, e2⟩ := lookup_ok xmap _ rows h
   exact ⟨Np.take perm2 sus, take_perm sus perm2 (by rw [hlen]; exact hp2), e1, e2⟩
 
-/-- the integer usefulness-criterion problem can be built when there is a single cross …
+/-- **UC integer protocol (after fix 3d8c7c9b).**  For every `ncross ≥ 1` and every per-cross
+    `nmating` array the decision-space bounds are built: both have one entry per candidate cross, the
+    lower bound is 0 and the upper bound `ncross · nparent · m` with `m` at least every `nmating[i]`. -/
+theorem uc_integer_bounds (nc np nx : Nat) (nmating : List Nat) (hl : nmating.length = nc) (h1 : 1 ≤ nc) :
+    ∃ lo up m, ucIntegerBounds nc np nmating nx = .ok (lo, up) ∧ lo = List.replicate nx 0 ∧
+      up = List.replicate nx (nc * np * m) ∧ ∀ x ∈ nmating, x ≤ m := by
+  cases nmating with
+  | nil => simp at hl; omega
+  | cons m ms =>
+    refine ⟨_, _, ms.foldl max m, rfl, rfl, rfl, ?_⟩
+    intro x hx
+    obtain ⟨a, b⟩ := foldl_max_ge ms m
+    rcases List.mem_cons.mp hx with rfl | hx
+    · exact a
+    · exact b x hx
 
-    FULL STATEMENT (false of the as-is model, see `uc_integer_bounds_counterexample`):
-      for every `ncross ≥ 1` and every `nmating` array of length `ncross` the bounds are built. -/
-theorem uc_integer_bounds_partial (nc np nx : Nat) (nmating : List Nat) (h : nmating.length = 1) :
-    ∃ b, ucIntegerBounds nc np nmating nx = .ok b := by
-  unfold ucIntegerBounds
-  simp [length_repeatN, h]
-
-/-- **D19.**  … and never when two or more crosses are requested: the upper bound repeats the whole
-    `(ncross,)` `nmating` array, `numpy.stack` raises, `select()` produces no configuration. -/
-theorem uc_integer_bounds_counterexample (nc np nx : Nat) (nmating : List Nat)
+/-- **D21 (repaired by 3d8c7c9b).**  Before the repair the upper bound repeated the whole `(ncross,)`
+    `nmating` array: for every `ncross ≥ 2` `numpy.stack` raised and `select()` produced no configuration. -/
+theorem uc_integer_bounds_prerepair_counterexample (nc np nx : Nat) (nmating : List Nat)
     (hl : nmating.length = nc) (h2 : 2 ≤ nc) (hx : 0 < nx) :
-    ucIntegerBounds nc np nmating nx = .error "value" := by
-  unfold ucIntegerBounds
+    ucIntegerBoundsPrerepair nc np nmating nx = .error "value" := by
+  unfold ucIntegerBoundsPrerepair
   have : ¬ (nx = nx * nc) := by
     intro e
     have : nx * 2 ≤ nx * nc := Nat.mul_le_mul_left nx h2
     omega
   simp [length_repeatN, hl, this]
 
-example : ucIntegerBounds 2 2 [1, 1] 3 = .error "value" ∧ ucIntegerBounds 1 2 [2] 3 = .ok ([0, 0, 0], [4, 4, 4]) := by
+example : ucIntegerBoundsPrerepair 2 2 [1, 1] 3 = .error "value" ∧
+    ucIntegerBounds 2 2 [1, 3] 3 = .ok ([0, 0, 0], [12, 12, 12]) ∧ ucIntegerBounds 1 2 [2] 3 = .ok ([0, 0, 0], [4, 4, 4]) := by
   decide
 example : sampleMateInteger [2, 0, 1] (xmapix 3 2 true) 4 [0] [3, 0, 1, 2] [1, 0, 3, 2]
     = .ok [[0, 1], [0, 1], [1, 2], [0, 1]] := by decide
